@@ -4,6 +4,7 @@ use crate::exec::{Params, Program};
 
 pub mod ebr;
 pub mod rc;
+pub mod seq;
 
 pub struct ScenarioDef {
     pub name: &'static str,
@@ -14,6 +15,7 @@ pub struct ScenarioDef {
 pub fn all() -> Vec<&'static ScenarioDef> {
     let mut v: Vec<&'static ScenarioDef> = Vec::new();
     v.extend(rc::SCENARIOS.iter());
+    v.extend(seq::SCENARIOS.iter());
     v.extend(ebr::SCENARIOS.iter());
     v
 }
